@@ -26,6 +26,27 @@ T = {
     "C18-casefold-underscore": ("C18", "a zoneinfo / concatenated database holding the full set of names (names with '_'), looked up in another letter case", ["C18"]),
     "C19-stale-index-toctou": ("C19", "a zone file removed or replaced between the directory walk and the load, within one cache epoch", ["C19"]),
     "C20-posix-drop-increments": ("C20", "dropping the last handle of a POSIX-string-backed TimeZone", ["C20"]),
+    # ---- second round (each sub-agent was told which idea the first round had used, to pick another) ----
+    "C01-nth-weekday-day0": ("C01", "nth_weekday_of_month(-5, wd) for the one weekday per month whose fifth-from-last occurrence would be day 0", ["C01", "C05"]),
+    "C02-negoffset-midnight-borrow": ("C02", "a pre-1970 instant with a fraction, a western offset, whole second exactly on local midnight", ["C02"]),
+    "C03-posix-prefrac-ceil": ("C03", "a POSIX-rule zone, an instant within one second before a pre-1970 transition, with a non-zero fraction", ["C03"]),
+    "C04-posix-after-2037": ("C04", "civil times from 2038 on in zones whose TZif data has explicit transitions past 2037 (Casablanca, El_Aaiun, Gaza, Hebron)", ["C04"]),
+    "C05-nth-weekday-day0-is-negative": ("C05", "nth_weekday_of_month(-5, wd) computing day 0: panic with debug assertions, an invalid Date without", ["C05", "C01"]),
+    "C06-gap-direction-of-travel": ("C06", "Zoned minus calendar units landing inside a gap", ["C06"]),
+    "C07-since-flipped-until": ("C07", "Zoned::since with months or years as largest unit across a month-end", ["C07"]),
+    "C08-negfrac-fastpath": ("C08", "DateTime + negative SignedDuration with a fraction when the datetime's own sub-second is zero", ["C08"]),
+    "C09-fold-exact-offset": ("C09", "a zoned datetime on the earlier side of a fold whose pre-transition offset has seconds (New York 1883)", ["C09"]),
+    "C10-zoned-round-epoch": ("C10", "Zoned::round to seconds or smaller in a zone with an odd-second offset, or before 1970", ["C10"]),
+    "C11-total-week-div7": ("C11", "Span::total(Week) relative to a zoned datetime when the last partial week holds a 23/25-hour day", ["C11"]),
+    "C12-std-duration-neg-subsec": ("C12", "std::time::Duration::try_from of a negative SignedDuration shorter than one second", ["C12"]),
+    "C13-compatible-fastpath-alwaysoffset": ("C13", "OffsetConflict::AlwaysOffset with an offset the zone does not assign (or parsing 'Z[Zone]')", ["C13"]),
+    "C14-next-transition-handoff": ("C14", "following() from before the last recorded transition of a zone whose rule has no DST (Sao_Paulo, Tokyo)", ["C14"]),
+    "C15-hms-sign-calendar-only": ("C15", "friendly HH:MM:SS mode, a negative span with calendar units only", ["C15"]),
+    "C16-week-sun-nth-weekday": ("C16", "strptime %U with a weekday in a year that starts on a Sunday", ["C16"]),
+    "C17-tzif-type-index-bound": ("C17", "TZif data whose transition type index equals the number of local time types", ["C17"]),
+    "C18-fatten-ignores-dst-flag": ("C18", "slim TZif with two local time types equal in offset and abbreviation but not in the DST flag (Auckland, Dublin), tz-fat on", ["C18", "C03"]),
+    "C19-expiration-before-revalidate": ("C19", "a cached zone whose file disappears after its TTL: the second lookup serves the stale entry", ["C19"]),
+    "C20-unknown-eq-utc-asymmetric": ("C20", "comparing an Etc/Unknown handle with a UTC handle in both orders", ["C20"]),
 }
 for sid, (pid, needs, caught) in T.items():
     d = os.path.join(VERIF, "seeded", sid)
@@ -59,7 +80,8 @@ for sid, (pid, needs, caught) in T.items():
         "seedverify": ver or old.get("seedverify", {}),
         "expected_to_be_caught_by": caught,
         "seedtest": tests or old.get("seedtest", {}),
-        "how_to_test": f"bash lib/seedtest.sh {sid} {' '.join(caught)}   # git -C /repo apply; ./check ... --tier quick; git -C /repo checkout",
+        "how_to_test": f"bash lib/seedtest.sh {sid} {' '.join(caught)}   # git -C /repo apply; ./check ... --tier quick; git -C /repo checkout"
+                       f"   (or bash lib/labtest.sh ... in the scratch laboratory, /repo untouched)",
     }
     json.dump(meta, open(mp, "w"), indent=1)
 print("meta written for", len(T))
